@@ -372,9 +372,184 @@ def run(rep, f, c, rule='R-DIM'):
                         report('result', 'read', d0 not in (D, TOP), 'the `read` result is a %s quantity: %s' % ('destination' if d0 == D else 'mixed', expr_str(rd_, b)[:100]), sp_str(st['sp']))
                         report('result', 'written', d1 not in (S, TOP), 'the `written` result is a %s quantity: %s' % ('source' if d1 == S else 'mixed', expr_str(wr_, b)[:100]), sp_str(st['sp']))
     rep.floor(rule, 'slice-to-slice converter bodies analysed', nb, 35, c)
+    nchk += consumed_without_output(rep, f, c, rule)
+    nrel = relative_index(rep, f, c, rule)
+    rep.floor(rule + '.relative', 'indices checked against the running position of their loop', nrel, 200, c)
+    nchk += nrel
     rep.count('dim.bodies:%s' % c, nb)
     rep.count('dim.checks:%s' % c, nchk)
     return nb, nchk
+
+
+def consumed_without_output(rep, f, c, rule):
+    """a path that advances a source position and returns must also have produced output (advanced a destination position or stored
+    into the destination): the converters never consume a unit silently (lossy forms write a replacement)"""
+    from paths import region_paths, loop_heads
+    n = 0
+    for name, b in sorted(f.bodies.items()):
+        if not in_scope(f, name, b):
+            continue
+        ret = b.raw.get('ret', '').replace(' ', '')
+        if not (ret == '(usize,usize)' or ret.endswith(',usize,usize)')):
+            continue
+        dm = Dim(f, b)
+        dm.solve()
+        S_l = [l for l, d in dm.var.items() if d == S]
+        D_l = [l for l, d in dm.var.items() if d in (D, B)]
+        if not S_l or not D_l:
+            continue
+        heads = set(loop_heads(b))
+        bad = None
+        npaths = 0
+        try:
+            regions = [(h, region_paths(b, h, stop=heads)) for h in sorted(heads)]
+        except OverflowError:
+            continue
+        for h, paths in regions:
+            for p in paths:
+                if p.end[0] != 'return':
+                    continue
+                npaths += 1
+
+                def delta(l):
+                    v = p.env.get(l)
+                    if v is None:
+                        return 0
+                    terms, k = add_terms(v)
+                    return k if terms == (('init', l),) else None
+                ds = [delta(l) for l in S_l]
+                dd = [delta(l) for l in D_l]
+                if any(x is None for x in ds + dd):
+                    continue
+                stores = [e for e in p.events if e[0] == 'store' and dm.root_dim(e[1][1] if e[1][0] in ('idx', 'deref') else e[1]) == D]
+                wcalls = [e for e in p.events if e[0] == 'call' and any(dm.root_dim(a) == D for a in e[2])]
+                if sum(ds) > 0 and sum(dd) == 0 and not stores and not wcalls:
+                    bad = (p.blocks[-1], sum(ds))
+        n += 1
+        rep.ob(rule + '.consume', name, bad is None,
+               'a path advances the source position by %d and returns without storing anything or advancing the destination position: a unit is consumed silently' % (bad[1] if bad else 0),
+               sp_str(b.blocks[bad[0]]['tsp']) if bad else sp_str(b.raw['span']), {'return_paths': npaths}, c)
+    return n
+
+
+def relative_index(rep, f, c, rule):
+    """inside a loop that walks a buffer with a loop-carried position, every index into that buffer is relative to a loop-carried
+    position (it mentions one): an index built from a count alone addresses the start of the window, not the current place"""
+    from paths import loop_heads
+    n = 0
+    for name, b in sorted(f.bodies.items()):
+        if b.kind not in ('fn', 'assoc_fn') or not name.startswith(('handles::', 'mem::', 'utf_8::', 'single_byte::', 'x_user_defined::', 'ascii::')):
+            continue
+        heads = loop_heads(b)
+        if not heads:
+            continue
+        r = Resolver(b)
+        multi = {i for i, l in enumerate(b.locals) if i > b.arg_count and l['ty'] == 'usize' and len(b.defs.get(i, [])) >= 2}
+        if not multi:
+            continue
+        uses = []           # (block, buffer root, index expr, site)
+
+        def buf_local(l, depth=0):
+            """follow copies / reborrows of a slice reference back to a named local or an argument"""
+            while depth < 12:
+                depth += 1
+                if l <= b.arg_count or b.locals[l].get('name'):
+                    return l
+                sd = b.single_def(l)
+                if sd is None or sd[2] != 'assign':
+                    return l
+                rv = sd[3]['rv']
+                pl_ = None
+                if 'use' in rv:
+                    pl_ = op_place(rv['use'])
+                elif 'ref' in rv or 'rawptr' in rv:
+                    pl_ = rv.get('place')
+                elif 'cast' in rv:
+                    pl_ = op_place(rv['x'])
+                if pl_ is None or any(pe != 'deref' for pe in pl_['p']):
+                    return l
+                l = pl_['l']
+            return l
+
+        def root_of_buf(e):
+            return e if e[0] == 'loc' else None
+        for bi, blk in enumerate(b.blocks):
+            t = blk['t']
+            if 'call' in t:
+                s_ = short(b.callee(t) or '')
+                if s_ in ('index', 'index_mut', 'get_unchecked', 'get_unchecked_mut') and len(t['args']) == 2:
+                    a1 = r.operand(t['args'][1])
+                    p0 = op_place(t['args'][0])
+                    rt = ('loc', buf_local(p0['l'])) if p0 is not None else None
+                    if rt is not None:
+                        parts = list(a1[2]) if a1[0] == 'agg' and 'Range' in a1[1] else [a1]
+                        # only the start of a range is a position to check; the end may be a length
+                        if a1[0] == 'agg' and a1[1].endswith(('Range::Range', 'RangeFrom::RangeFrom')):
+                            parts = [a1[2][0]]
+                        elif a1[0] == 'agg' and 'RangeTo' in a1[1]:
+                            parts = []
+                        for pe in parts:
+                            uses.append((bi, rt, pe, sp_str(blk['tsp'])))
+            for st in blk['s']:
+                for pl in places_of(st):
+                    ix = [i for i, pe in enumerate(pl['p']) if isinstance(pe, dict) and 'index' in pe]
+                    if ix:
+                        rt = ('loc', buf_local(pl['l']))
+                        uses.append((bi, rt, r.local(pl['p'][ix[0]]['index']), sp_str(st['sp'])))
+        if not uses:
+            continue
+        for h in heads:
+            loop = _natural_loop(b, h)
+            carried = {l for l in multi if any(d[0] in loop for d in b.defs[l])}
+            by_buf = {}
+            for bi, rt, idx, site in uses:
+                if bi in loop:
+                    by_buf.setdefault(rt, []).append((idx, site))
+            for rt, items in by_buf.items():
+                if 'usize' in b.locals[rt[1]]['ty'] or '[' not in b.locals[rt[1]]['ty']:
+                    continue
+                pos = set()
+                for idx, site in items:
+                    pos |= arith_locals(idx) & carried
+                if not pos:
+                    continue
+                for idx, site in items:
+                    mentions = bool(arith_locals(idx) & pos)
+                    n += 1
+                    rep.ob(rule + '.relative', '%s:%s[%s]' % (name, b.locals[rt[1]].get('name') or '_%d' % rt[1], expr_str(idx, b)[:40]), mentions,
+                           'inside the loop that walks `%s` with the position(s) %s this index does not depend on any of them: %s' %
+                           (b.locals[rt[1]].get('name') or '_%d' % rt[1], [b.locals[l].get('name') or '_%d' % l for l in sorted(pos)], expr_str(idx, b)[:80]), site, None, c)
+    return n
+
+
+def arith_locals(e):
+    """locals an index expression depends on arithmetically (through + - * casts), not through the arguments of a call whose
+    result it uses"""
+    out = set()
+    if not isinstance(e, tuple) or not e:
+        return out
+    if e[0] == 'loc':
+        out.add(e[1])
+    elif e[0] in ('bin', 'ovf'):
+        out |= arith_locals(e[2]) | arith_locals(e[3])
+    elif e[0] == 'cast':
+        out |= arith_locals(e[2])
+    elif e[0] == 'call' and short(e[1]) in ('unwrap', 'min', 'max', 'checked_add', 'wrapping_add', 'checked_sub', 'wrapping_sub'):
+        for a in e[2]:
+            out |= arith_locals(a)
+    return out
+
+
+def _natural_loop(body, h):
+    loop = {h}
+    stack = [x for (x, hh) in body.back_edges() if hh == h]
+    while stack:
+        x = stack.pop()
+        if x in loop:
+            continue
+        loop.add(x)
+        stack.extend(body.pred[x])
+    return loop
 
 
 def places_of(st):
